@@ -1,0 +1,10 @@
+//go:build !verif
+
+package mangos
+
+// Verification ledger hooks: no-ops in normal builds.
+func verifNew(*Message, int)          {}
+func verifClone(*Message)             {}
+func verifFree(*Message)              {}
+func verifRelease(*Message)           {}
+func verifUnique(*Message, *Message)  {}
